@@ -2,6 +2,7 @@ mod common;
 mod engine;
 mod props;
 mod sym;
+mod symtxt;
 mod z3;
 
 use engine::{ExploreOpts, Leaf};
@@ -379,6 +380,10 @@ fn main() {
         "C07" => drive(&props::deadline::C07, &a),
         "C08" => drive(&props::hookproto::C08, &a),
         "C10" => drive(&props::adapters::C10, &a),
+        "C04" => drive(&props::text::Text(props::text::Which::C04), &a),
+        "C13" => drive(&props::text::Text(props::text::Which::C13), &a),
+        "C14" => drive(&props::text::Text(props::text::Which::C14), &a),
+        "C17" => drive(&props::text::Text(props::text::Which::C17), &a),
         "C15" => drive(&props::misc::C15, &a),
         "C19" => drive(&props::misc::C19, &a),
         "C20" => drive(&props::misc::C20, &a),
